@@ -308,3 +308,154 @@ pub fn random_response(rng: &mut Rng, body_max: usize, allow_close: bool, tag: &
     let close_data = payload(n, 17);
     (head, plan, close_data)
 }
+
+// ------------------------------------------------------------------ head generators for C05 / C20
+
+pub const TOKEN_EXTRA: &[u8] = b"!#$%&'*+-.^_`|~";
+
+pub fn random_token(rng: &mut Rng, max: usize) -> String {
+    let n = rng.usize_in(1, max);
+    (0..n)
+        .map(|i| {
+            let c = match rng.below(12) {
+                0 => *rng.pick(TOKEN_EXTRA),
+                1 => b'0' + rng.below(10) as u8,
+                2 => b'A' + rng.below(26) as u8,
+                _ => b'a' + rng.below(26) as u8,
+            };
+            // keep the first char a letter so that it never looks like something else
+            if i == 0 && !c.is_ascii_alphabetic() {
+                'x'
+            } else {
+                c as char
+            }
+        })
+        .collect()
+}
+
+/// A well-formed response head with exactly `nfields` fields. Status 100 is never produced.
+pub fn gen_resp_head(rng: &mut Rng, nfields: usize, force_3xx_location: bool) -> RespHead {
+    let status = if force_3xx_location {
+        *rng.pick(&[300u16, 301, 302, 303, 305, 307, 308, 399])
+    } else {
+        match rng.below(6) {
+            0 => rng.usize_in(101, 199) as u16,
+            1 => rng.usize_in(101, 999) as u16,
+            2 => *rng.pick(&[301u16, 302, 307, 308, 304]),
+            _ => *rng.pick(&[200u16, 200, 204, 206, 404, 500, 999]),
+        }
+    };
+    let mut head = RespHead::new(rng.chance(1, 3), status);
+    head.reason = match rng.below(6) {
+        0 => vec![],
+        1 => vec![b'R'; rng.usize_in(100, 400)],
+        2 => b"obs \xe9\xff text\tand tab".to_vec(),
+        _ => b"OK".to_vec(),
+    };
+    let pool = ["Content-Type", "Set-Cookie", "set-cookie", "X-A", "x-a", "Vary", "ETag", "Cache-Control", "Connection", "Server"];
+    for i in 0..nfields {
+        let name = if rng.chance(1, 4) { random_token(rng, 24) } else { rng.pick(&pool).to_string() };
+        let mut value = format!("v{}", i).into_bytes();
+        match rng.below(10) {
+            0 => value.clear(),
+            1 => value.extend_from_slice(b" two  words\tand;params=\"q\""),
+            2 => value.extend_from_slice(&[0x80, 0xfe, 0xff]),
+            3 => value.extend_from_slice(&vec![b'v'; rng.usize_in(30, 300)]),
+            4 => value.extend_from_slice(b": looks: like: header"),
+            _ => {}
+        }
+        head.fields.push(Field {
+            name,
+            value,
+            lead: *rng.pick(&[" ", " ", " ", "", "  ", "\t", " \t "]),
+            trail: *rng.pick(&["", "", "", " ", "\t", "  \t"]),
+        });
+    }
+    if force_3xx_location && nfields >= 1 {
+        // a Location somewhere, with more fields after it when there is room
+        let at = rng.usize_in(0, nfields.saturating_sub(2).min(nfields - 1));
+        head.fields[at].name = (*rng.pick(&["Location", "location", "LOCATION"])).to_string();
+        head.fields[at].value = b"/moved/here".to_vec();
+        // make the lost-field scenario concrete
+        if at + 1 < nfields {
+            head.fields[at + 1].name = "Set-Cookie".into();
+            head.fields[at + 1].value = b"session=1".to_vec();
+        }
+    }
+    // an empty value with trailing whitespace is still an empty value
+    head
+}
+
+pub fn field_count_choice(rng: &mut Rng) -> usize {
+    match rng.below(10) {
+        0 => 0,
+        1 => 1,
+        2 => 128,
+        3 => 127,
+        4 => rng.usize_in(100, 128),
+        _ => rng.usize_in(0, 12),
+    }
+}
+
+pub fn random_tail(rng: &mut Rng) -> Vec<u8> {
+    match rng.below(6) {
+        0 => vec![],
+        1 => b"HTTP/1.1 200 OK\r\nContent-Length: 0\r\n\r\n".to_vec(),
+        2 => b"\r\n\r\n".to_vec(),
+        3 => rng.bytes(40),
+        4 => b"5\r\nhello\r\n0\r\n\r\n".to_vec(),
+        _ => b"body bytes: not a header\r\n".to_vec(),
+    }
+}
+
+/// Prefix lengths to try for a head of `len` bytes with token boundaries `bounds`:
+/// all of them when short or `all`, else every boundary +-2, the first 20, the last 120 and 150 random ones.
+pub fn prefix_set(rng: &mut Rng, len: usize, bounds: &[usize], all: bool) -> Vec<usize> {
+    if all || len <= 700 {
+        return (0..len).collect();
+    }
+    let mut v: Vec<usize> = (0..20).collect();
+    v.extend(len - 120..len);
+    for b in bounds {
+        for d in 0..5usize {
+            let p = (*b + d).saturating_sub(2);
+            if p < len {
+                v.push(p);
+            }
+        }
+    }
+    for _ in 0..150 {
+        v.push(rng.usize_in(0, len - 1));
+    }
+    v.sort();
+    v.dedup();
+    v
+}
+
+/// Offsets where a token of the rendered head ends (status line parts, names, colons, values, CR, LF).
+pub fn head_boundaries(h: &RespHead) -> Vec<usize> {
+    let mut v = vec![8, 9, 12, 13];
+    let mut p = 13 + h.reason.len();
+    v.push(p);
+    v.push(p + 1);
+    p += 2;
+    v.push(p);
+    for f in &h.fields {
+        p += f.name.len();
+        v.push(p);
+        p += 1;
+        v.push(p);
+        p += f.lead.len();
+        v.push(p);
+        p += f.value.len();
+        v.push(p);
+        p += f.trail.len();
+        v.push(p);
+        v.push(p + 1);
+        p += 2;
+        v.push(p);
+    }
+    v.push(p + 1);
+    v.push(p + 2);
+    v
+}
